@@ -278,7 +278,7 @@ Fixpoint digits_val (acc : N) (s : str) : option N :=
   end.
 (* usize::from_str: optional '+', at least one digit, overflow at 2^64 *)
 Definition parse_usize (s : str) : option N :=
-  let d := match s with 43 :: r => r | _ => s end in
+  let d := match s with c :: r => if c =? 43 then r else s | [] => s end in
   match d with
   | [] => None
   | _ => match digits_val 0 d with
